@@ -22,6 +22,12 @@ pub fn test_diff(c: &ProgCase) -> Verdict {
     let (Some(aware), Some(unaware)) = (run_fresh(&mut i, &c.p.prog, &c.p.env, c.flags, budget, None), run_hiding(&mut i, &c.p.prog, &c.p.env, c.flags, budget)) else {
         return Verdict::discard();
     };
+    if aware.bad_exempt {
+        return Verdict::fail(format!(
+            "a guard was given the cost-exempt (pre-hard-fork) operator set although NEW_COST_MODEL is not set: its declared cost is then never compared with the cost it consumes\n {}",
+            show_case(c)
+        ));
+    }
     if let Out::Ok { cost, val } = &aware.out {
         match &unaware.out {
             Out::Ok { cost: c2, val: v2 } => {
